@@ -25,6 +25,12 @@ PROP = dict(
                     "accepts or refuses: accepted copies have equal names (every node of the list/tree), refused ones return NULL and "
                     "leave neither value clones nor name storage allocated (allocator bytes-in-use before/after the call, in-case "
                     "LeakSanitizer pass); source objects compared with snapshots.  "
+                    "mpt_node_move: 8k (quick) / 150k (thorough) PRNG pairs of small trees (<= 24 nodes, three levels) whose names come from one "
+                    "pool per case - text with an embedded NUL, its C-string prefix, same prefix with another tail, plain text of the same "
+                    "length, one byte longer, absent, empty text, binary with the same bytes, binary prefix, unrelated - of lengths 4/5, "
+                    "19..22, 84/85, 213 in nodes of every size class; return value, head of the remaining source list, place and order "
+                    "of every node, links, names and the release of all name blocks are compared with a list model that merges on "
+                    "(kind, length, bytes) equality.  "
                     "Exploration, not proof: lengths between the boundaries are sampled."),
         level_note=("trusts the byte-array shadow in harness/c16_ident.c / c16_cxx.cpp, gcc ASan/UBSan red zones and poison state, "
                     "LeakSanitizer (conservative scan: secondary to the explicit release witness)"),
@@ -42,7 +48,10 @@ PROP = dict(
                            "mpt_node_clone": 400, "mpt_list_clone": 400, "mpt_tree_clone": 400, "clone:accepted": 400, "clone:refused": 700,
                            "clone:refused-node-has-out-of-line-name": 300, "clone:refused-other-node-has-out-of-line-name": 20,
                            "clone:accepted-with-out-of-line-name": 200, "monitor:clone-name-compared": 1000,
-                           "monitor:clone-leak-check": 1400}),
+                           "monitor:clone-leak-check": 1400,
+                           "mpt_node_move": 4000, "monitor:move-structure-verified": 4000, "move:moved": 8000, "move:merged": 4000,
+                           "move:merged-name-with-embedded-nul": 2000, "move:kept-apart-from-c-string-prefix": 2000,
+                           "move:merged-unnamed": 80}),
               dict(name="c16_cxx", memcheck=500, src=["c16_cxx.cpp"], libs=["mpt++", "mptio", "mptplot", "mptcore"], batch=256, lsan=True,
                    floors={"identifier::set_name": 5000, "identifier::operator=": 2000, "identifier::identifier(copy)": 500,
                            "identifier::equal": 10000, "item::operator=": 300, "transition:long>short": 500,
